@@ -2,7 +2,7 @@
 import ast
 
 from ..core import Property, AnalysisError, unparse, norm, walk_no_nested
-from ..sym import Interp, S, term, show, subterms, flatten_cat
+from ..sym import Interp, S, term, show, subterms, flatten_cat, State
 from ..layout import LAYOUT_HOOKS, normalize
 from .. import intv, mut
 
@@ -636,3 +636,112 @@ def public_master_derives(ctx):
                             "xpub.public_master() hands back the parent itself (depth 0) as the key at m/44'/0'/0': a wallet built on it derives every address from the wrong level")
                 ctx.saw('%s on a %s key, multisig=%s, witness_type=%s -> %s' % (meth, 'private' if priv else 'public-only', ms, wt, sorted(set('%s %s' % (e.kind, show(term(e.value))[:50]) for e in exits))))
     ctx.floor(n, 16, 'public-master scenarios')
+
+
+@PROP.obligation('C03.public-master-account', canaries=[
+    mut.replace_expr('keys', 'HDKey.public_master_multisig', 'self.public_master(account_id, purpose, True, witness_type, as_private)', 'self.public_master(purpose=purpose, multisig=True, witness_type=witness_type, as_private=as_private)', 'the multisig wrapper always exports account 0'),
+    mut.Canary('the account key is always the one of account 0', 'keys', lambda tree: _const_account(tree)),
+])
+def public_master_account(ctx):
+    """HDKey.public_master(account_id=N) / public_master_multisig(account_id=N) export the key at m/purpose'/coin'/N'. Both are evaluated
+    for account 3 (and 0): the path they derive is expanded with account_id = 3 - the wrapper hands its argument on. An export that is
+    always account 0 gives a multisig wallet for account 3 whose own key is on .../3'/... and whose cosigner keys are on .../0'/...:
+    none of its addresses is what the cosigners' master keys give for that path."""
+    n = 0
+    for meth in ('public_master', 'public_master_multisig'):
+        q = ctx.repo.resolve_method('keys:HDKey', meth)
+        if q is None:
+            ctx.undecided('HDKey.%s vanished' % meth)
+        fn = ctx.repo.func(q)
+        for account in (3, 0):
+            seen = []
+
+            def h_expand(it, a, kw, st, node):
+                seen.append(dict(kw))
+                return S(('var', 'path'), 'list')
+
+            def attr_hook(interp, base, name, st):
+                if term(base) == SELF and name == 'is_private':
+                    return True
+                return NotImplemented
+            hooks = {'get_key_structure_data': lambda it, a, kw, st, node: (["m", "purpose'", "coin_type'", "account'", 'change', 'address_index'], 44, 'base58'), 'path_expand': h_expand}
+            it = Interp(ctx.repo, 'keys', hooks=hooks, self_cls='keys:HDKey', attr_hook=attr_hook, inline=['self.public_master'])
+            try:
+                it.run_function(fn, {'self': S(SELF), 'account_id': account, 'purpose': None, 'witness_type': None, 'as_private': False})
+            except AnalysisError as e:
+                ctx.undecided('HDKey.%s(account_id=%d) not evaluable: %s' % (meth, account, str(e)[:100]))
+            if not seen:
+                ctx.undecided('HDKey.%s: the path is not expanded with path_expand' % meth)
+            for kw in seen:
+                n += 1
+                got = kw.get('account_id')
+                got = got if not isinstance(got, S) else show(term(got))
+                ctx.saw('%s(account_id=%d) expands the path with account_id=%s' % (meth, account, got))
+                ctx.require(got == account, q, '%s(account_id=%d) derives the key of account %s' % (meth, account, got), fn,
+                            "a cosigner exports public_master_multisig(account_id=3) and hands over the key of account 0: the multisig wallet built on it pays to scripts the cosigners' seeds do not give for m/48'/0'/3'/2'/...")
+    ctx.floor(n, 4, 'account scenarios')
+
+
+def _const_account(tree):
+    for cls in tree.body:
+        if isinstance(cls, ast.ClassDef) and cls.name == 'HDKey':
+            for f in cls.body:
+                if isinstance(f, ast.FunctionDef) and f.name == 'public_master':
+                    for c in ast.walk(f):
+                        if isinstance(c, ast.Call) and norm(c.func) == 'path_expand':
+                            for k in c.keywords:
+                                if k.arg == 'account_id':
+                                    k.value = ast.Constant(0)
+                                    return True
+    return False
+
+
+@PROP.obligation('C03.prefix-is-relative', canaries=[
+    mut.replace_expr('keys', 'HDKey.subkey_for_path', 'path[1:]', 'path[self.depth + 1:]', 'an m / M prefix makes the path absolute from the master: levels are dropped on a deeper key', nth=0),
+])
+def prefix_is_relative(ctx):
+    """subkey_for_path derives "along any path" from the key it is called on: a leading m / M only says private / public, every level
+    after it is derived. The method is evaluated on a PRIVATE key of depth 3 (an account key) and on a master key for the paths
+    m/1/2', ['m', '5'], 1/2' and M/7: the derivation calls made are exactly one per level, in order, with the hardened flag of the level.
+    Skipping depth+1 elements turns account_key.subkey_for_path("m/1/2'") into m/.../2' or the key itself - another key, no error."""
+    q = 'keys:HDKey.subkey_for_path'
+    fn = ctx.repo.func(q)
+    n = 0
+    for depth in (3, 0):
+        for path, want in (("m/1/2'", [('private', 1, False), ('private', 2, True)]), (['m', '5'], [('private', 5, False)]), ("1/2'", [('private', 1, False), ('private', 2, True)]),
+                           ('M/7', [('public*', 7, False)]), ("m/0'/1/2", [('private', 0, True), ('private', 1, False), ('private', 2, False)])):
+            calls = []
+
+            def rec(kind):
+                def h(interp, base, args, kwargs, st, node, kind=kind):
+                    idx = kwargs.get('index', args[0] if args else None)
+                    hard = kwargs.get('hardened', args[1] if len(args) > 1 else False)
+                    calls.append((kind, idx if not isinstance(idx, S) else show(term(idx)), hard if not isinstance(hard, S) else show(term(hard))))
+                    return S(('derived', len(calls)))
+                return h
+
+            def attr_hook(interp, base, name, st, depth=depth):
+                if name == 'is_private':
+                    return True
+                if name == 'depth' and term(base) == SELF:
+                    return depth
+                if name == 'network':
+                    return S(('var', 'network_obj'))
+                return NotImplemented
+            hooks = {'.child_public': rec('public'), '.child_private': rec('private'), '.public': lambda it_, b, a, kw, st, node: (calls.append(('to-public', None, None)), S(('pub', term(b) if isinstance(b, S) else b)))[1],
+                     'deepcopy': lambda it_, a, kw, st, node: a[0]}
+            it = Interp(ctx.repo, 'keys', hooks=hooks, self_cls='keys:HDKey', attr_hook=attr_hook)
+            st = State()
+            st.heap[('attr', SELF, '_memo_subkeys')] = {}
+            try:
+                it.run_function(fn, {'self': S(SELF), 'path': list(path) if isinstance(path, list) else path, 'network': None}, st=st)
+            except AnalysisError as e:
+                ctx.undecided('subkey_for_path(%r) on a key of depth %d not evaluable: %s' % (path, depth, str(e)[:100]))
+            derive = [c for c in calls if c[0] in ('private', 'public')]
+            n += 1
+            ctx.saw('depth %d, path %r -> %s' % (depth, path, calls))
+            exp = [(k.rstrip('*'), i, h) for k, i, h in want]
+            ok = len(derive) == len(exp) and all(d[1] == e[1] and bool(d[2]) == e[2] and (e[0] == d[0] or want[0][0].endswith('*')) for d, e in zip(derive, exp))
+            ctx.require(ok, q, 'on a key of depth %d, subkey_for_path(%r) derives %s, expected one step per level: %s' % (depth, path, [(d[1], d[2]) for d in derive], [(e[1], e[2]) for e in exp]), fn,
+                        'account_key.subkey_for_path(<m/1/2h>) silently drops the first levels of the path: the result has the wrong depth, child number and key, no error is raised')
+    ctx.floor(n, 10, 'path scenarios')
